@@ -44,6 +44,7 @@ fn hist_profile() -> HistProfile {
         observe: 3,
         binds: 0,
         raw_choose: false,
+        eval_knots: false,
         max_ops: 12,
     }
 }
